@@ -305,3 +305,68 @@ def report(ctx, rule):
     else:
         tr, what = bad[0]
         ctx.fail(rule, f, f.node, "namespace model: after [%s]: %s" % ("; ".join(tr), what), key=f.qualname + "::namespace-model", input="; ".join(tr))
+
+
+def descriptor_lookup_model(ctx, rule):
+    """ParameterizedMetaclass.get_param_descriptor -- which Parameter a class-level assignment `D.p = v` (and a constructor
+    keyword) is handed to -- interpreted on a diamond D(B, C), B(A), C(A) where A declares p, B does not, C re-declares
+    it (read-only / constant / with tighter bounds) and D does not.
+
+    Specification: the Parameter of the NEAREST class in D's MRO (D, B, C, A) that declares p: C's.  A search through
+    `__bases__` depth first reaches A through B before C: the class-level set on D copies A's unprotected Parameter."""
+    from engine.absint import Interp, Obj, Unsupported
+    from engine.loader import AnalysisError
+    META = "param.parameterized.ParameterizedMetaclass"
+    f = ctx.repo.func(META + ".get_param_descriptor")
+    pA, pC = Obj("Parameter_p_of_A", __kind__="Parameter"), Obj("Parameter_p_of_C_readonly", __kind__="Parameter")
+    OBJECT = Obj("object", __dict__={}, __bases__=())
+
+    def cls(name, bases, d):
+        return Obj(name, __cls__=META, __dict__=dict(d), __bases__=tuple(bases), __is_class__=True)
+    A = cls("A", [OBJECT], {"p": pA})
+    B = cls("B", [A], {})
+    C = cls("C", [A], {"p": pC})
+    D = cls("D", [B, C], {})
+    mro = {id(A): [A, OBJECT], id(B): [B, A, OBJECT], id(C): [C, A, OBJECT], id(D): [D, B, C, A, OBJECT]}
+
+    def hook(fn, args, kwargs):
+        if fn == "classlist" and len(args) == 1 and id(args[0]) in mro:
+            return list(reversed(mro[id(args[0])]))
+        if fn in ("inspect.getmro", "type.mro") and len(args) == 1 and id(args[0]) in mro:
+            return tuple(mro[id(args[0])])
+        if fn.endswith(".mro") and not args:
+            recv = getattr(hook.it, "current_receiver", None)
+            if isinstance(recv, Obj) and id(recv) in mro:
+                return list(mro[id(recv)])
+        if fn == "ParameterizedMetaclass.get_param_descriptor" and len(args) == 2:
+            return hook.it.invoke(f, [args[1]], {}, args[0])          # the unbound form of the same method
+        if fn == "isinstance" and len(args) == 2:
+            if norm_name(args[1]) == "ParameterizedMetaclass":
+                return isinstance(args[0], Obj) and args[0].attrs.get("__cls__") == META
+            return isinstance(args[0], Obj) and args[0].attrs.get("__kind__") == "Parameter"
+        return NotImplemented
+
+    def norm_name(x):
+        return x if isinstance(x, str) else getattr(x, "name", "")
+    hook.needs_receiver = True
+    it = Interp(ctx.hier, dyn=META, inline=lambda m: m == "get_param_descriptor", call_hook=hook, globals={"Parameter": "Parameter", "ParameterizedMetaclass": "ParameterizedMetaclass"})
+    hook.it = it
+    problems = []
+    for klass, want_p, want_c in ((D, pC, C), (B, pA, A), (C, pC, C)):
+        try:
+            outs = it.run_all(f, {f.params[0]: klass, f.params[1]: "p"})
+        except Unsupported as e:
+            raise AnalysisError("%s: absint cannot interpret get_param_descriptor: %s" % (rule, e))
+        if len(outs) != 1 or outs[0].imprecise or outs[0].kind != "return" or not (isinstance(outs[0].value, tuple) and len(outs[0].value) == 2):
+            raise AnalysisError("%s: get_param_descriptor is not interpretable precisely (%s)" % (rule, outs[0].notes[:2] if outs else "no outcome"))
+        ctx.abstract_cases += 1
+        gp, gc = outs[0].value
+        if gp is not want_p or gc is not want_c:
+            problems.append("for `p` on %s (diamond D(B, C); A declares p, C re-declares it) the lookup finds %s of %s, specification %s of %s -- the nearest declaring class of the MRO: a class-level "
+                            "set `D.p = v` is handed to (and copies) A's Parameter, so C's read-only / constant flag and bounds do not apply to D" % (
+                                klass.name, getattr(gp, "name", gp), getattr(gc, "name", gc), want_p.name, want_c.name))
+    if problems:
+        ctx.fail(rule, f, f.node, "descriptor lookup model: %s (%d disagreeing case(s))" % (problems[0], len(problems)), key=f.qualname + "::descriptor-lookup",
+                 input="class A: ro = Number(1); class B(A): pass; class C(A): ro = Number(1, readonly=True); class D(B, C): pass; D.ro = 5 -> accepted")
+    else:
+        ctx.ok(rule, f, f.node, "descriptor lookup model: on a diamond the lookup finds the Parameter of the nearest declaring class of the MRO (3 cases)")
